@@ -20,6 +20,22 @@ from contracts import wiremodel as W
 SHAPES = [(1, 1), (1, 2), (2, 1), (2, 2), (2, 3), (3, 2), (3, 3), (1, 4), (4, 1)]
 
 
+def _construct_matrix(I, args, kwargs):
+    """Matrix(...) inside the methods under contract: a fresh record initialised by the REAL __init__ (inlined)"""
+    from pyvc import engine as E
+    node, mod, cls = E.locate('pyrtl.rtllib.matrix', 'Matrix.__init__')
+    m = E.SObj('Matrix', {})
+    I.st.inlined.add('Matrix.__init__')
+    I.call_function(E.FuncVal(node, None, mod, 'Matrix.__init__', cls=cls), list(args), dict(kwargs), selfobj=m)
+    return m
+
+
+def _hooks():
+    h = dict(W.hooks())
+    h['construct:Matrix'] = _construct_matrix
+    return h
+
+
 def _elems(m):
     rows = m.fields.get('_matrix')
     if not isinstance(rows, list) or not all(isinstance(r, list) for r in rows):
@@ -238,3 +254,55 @@ class MatrixToWire(Contract):
                 den = den + W.den_of(ns.elems[i][j]) * H.pow2(k * ns.bits)
         from contracts.wire import _shape
         return _shape(ns, ns.bits * (ns.r * ns.c), den)
+
+
+@register
+class MatrixTranspose(Contract):
+    """m.transpose(): a columns x rows matrix of the same element width whose element (i, j) carries the value of
+    m's element (j, i), for all element widths and values (Matrix.__getitem__ / __setitem__ / the constructor are
+    executed from the real source on the concrete indices)."""
+    module, qualname, props = 'pyrtl.rtllib.matrix', 'Matrix.transpose', ('C19',)
+    hooks = property(lambda self: _hooks())
+
+    def cases(self):
+        return ['1x2', '2x2'] + (['2x1', '2x3'] if getattr(self, '_tier', 'quick') == 'thorough' else [])
+
+    def setup(self, I, case):
+        from pyvc.engine import SObj
+        r, c = [int(x) for x in case.split('x')]
+        bits = I.st.fresh_int('bits')
+        I.st.assume(bits.t >= 1)
+        elems = [[W.input_wire(I, 'e%d%d' % (i, j)) for j in range(c)] for i in range(r)]
+        for row in elems:
+            for e in row:
+                I.st.assume(W.bw_of(e) == bits.t)
+        m = SObj('Matrix', dict(rows=r, columns=c, _matrix=[list(row) for row in elems], _bits=bits, signed=False,
+                                max_bits=None))
+        return NS(self=m, args=[], r=r, c=c, bits=bits.t, elems=elems)
+
+    def post(self, ns):
+        import z3
+        from pyvc.engine import SObj, term
+        t = ns.result
+        F = z3.BoolVal(False)
+        if not isinstance(t, SObj) or t.cls != 'Matrix':
+            return [('returns a Matrix', F)]
+        rows = _elems(t)
+        if rows is None or len(rows) != ns.c or any(len(x) != ns.r for x in rows):
+            return [('the result is columns x rows', F)]
+        cl = [('the result is columns x rows', z3.And(term(t.fields['rows']) == ns.c, term(t.fields['columns']) == ns.r)),
+              ('same element width', term(t.fields['_bits']) == ns.bits)]
+        for i in range(ns.c):
+            for j in range(ns.r):
+                e = rows[i][j]
+                if not isinstance(e, SObj) or e.fields.get('bitwidth') is None or e.fields.get('_den') is None:
+                    cl.append(('element (%d,%d) is a driven wire' % (i, j), F))
+                    continue
+                src = ns.elems[j][i]
+                cl.append(('element (%d,%d) has the element width' % (i, j), W.bw_of(e) == ns.bits))
+                cl.append(('element (%d,%d) carries element (%d,%d) of the source' % (i, j, j, i),
+                           W.den_of(e) == W.den_of(src)))
+        # the source is untouched
+        same = all(ns.self.fields['_matrix'][i][j] is ns.elems[i][j] for i in range(ns.r) for j in range(ns.c))
+        cl.append(('the source matrix is unchanged', z3.BoolVal(same)))
+        return cl
